@@ -219,7 +219,8 @@ def write_replay(mod, seed, tier, idx, run, violation, digest):
         'violation': violation,
         'event_digest': digest,
     }
-    text = json.dumps(body, indent=1, sort_keys=True)
+    # key order is preserved on purpose: the order of a configuration dict is part of the input
+    text = json.dumps(body, indent=1)
     import hashlib
     name = '%s-%s.json' % (mod.PROPERTY, hashlib.sha256(text.encode()).hexdigest()[:12])
     path = os.path.join(REPLAY_DIR, name)
